@@ -571,6 +571,14 @@ func c02NonNilResponse(c *Ctx) {
 	ri := p.Func("", "ServerSession.runInner")
 	h := p.Func("", "ServerSession.handleRequestInner")
 	okSend := false
+	// the reply is built where the handler is called: runInner itself, or a helper extracted from it
+	if h != nil {
+		for _, ref := range p.RefsTo(h) {
+			if ref.IsCall && ri != nil && ref.Caller != ri && callersWithin(p, ref.Caller, []*ssa.Function{ri}, 1) {
+				ri = ref.Caller
+			}
+		}
+	}
 	if ri != nil {
 		for _, b := range ri.Blocks {
 			for _, in := range b.Instrs {
@@ -710,7 +718,11 @@ func c02ErrCloses(c *Ctx) {
 				}
 			}
 		}
+		shutdownCall := connShutdownHelper(run)
 		isClose := func(in ssa.Instruction) bool {
+			if shutdownCall != nil && in == ssa.Instruction(shutdownCall) {
+				return true // closes unless the socket was handed to the tunnel (checked in the helper and at the call)
+			}
 			ci, ok := in.(*ssa.Call)
 			return ok && ci.Call.IsInvoke() && ci.Call.Method.Name() == "Close" && strings.HasSuffix(core.PathOf(ci.Call.Value), ".nconn")
 		}
